@@ -55,7 +55,10 @@ class C16(hc.PProp):
         plan = hc.std_plan(rng, conf, hostile=False)
         plan['knobs'] = {'net.seg.max': [rng.choice([1460, 16384])], 'clock.tick_us': [1, 20]}
         nurl = rng.randint(4, 9)
-        plan['urls'] = [{'sizes': [rng.choice(SIZES) for _ in range(2)], 'lm': True, 'cc': 'max-age=100000', 'framing': rng.choice(['cl', 'cl', 'chunked']),
+        def two_sizes():
+            a = rng.choice(SIZES)
+            return [a, a] if rng.random() < 0.35 else [a, rng.choice(SIZES)]    # same-size overwrites reuse exactly the slots/blocks the old version freed
+        plan['urls'] = [{'sizes': two_sizes(), 'lm': True, 'cc': 'max-age=100000', 'framing': rng.choice(['cl', 'cl', 'chunked']),
                          'bumps': sorted(rng.randint(1, 20) * 1000000 for _ in range(rng.choice([0, 1, 2])))} for u in range(nurl)]
         steps = []
         rid = index * 1000
